@@ -181,7 +181,7 @@ theorem adductGap_counts_one (mono : Bool) (s : List Nat) (hs : s ≠ [43, 72, 4
 
 -- non-vacuity: PEPTIDE/2[+Na+,+2K+] (annotation) and the argument form
 example : AdductSource { seq := "PEPTIDE".toList, charge := some 2, adducts := some [⟨.str "+Na+,+2K+".toList, 1⟩] } {}
-    "+Na+,+2K+".toList := Or.inr ⟨rfl, 1, [], rfl⟩
+    "+Na+,+2K+".toList := Or.inr ⟨rfl, 1, rfl⟩
 example : (splitComma ("+Na+,+2K+".toList.map Char.toNat)).all (Spec.adductIonOk false) = true := by decide +kernel
 
 /-- with exactly self-consistent rows (tabulated mass = mass of the composition in the mode; every numeric, formula and
